@@ -402,5 +402,6 @@ def decode(st):
         _i.dataReceived(st)
     finally:
         _i.buffer = b""
+        del _i.listStack[:]
         del _i.expressionReceived
     return l[0]
